@@ -154,6 +154,7 @@ func (multi *MultiEpoch) handleGetSignaturesForAddress(ctx context.Context, conn
 		return 0
 	}
 
+	listVerified := make(map[uint64]bool) // epoch -> the list read there is known to be the requested address's
 	// Get the transactions:
 	foundTransactions, err := gsfaMulti.GetBeforeUntil(
 		ctx,
@@ -176,6 +177,19 @@ func (multi *MultiEpoch) handleGetSignaturesForAddress(ctx context.Context, conn
 			decoded, err := iplddecoders.DecodeTransaction(raw)
 			if err != nil {
 				return nil, fmt.Errorf("error while decoding transaction from nodex at offset %d: %w", oas.Offset, err)
+			}
+			if !listVerified[epochNum] {
+				// The address index only keeps a short hash of each address: an address without history in this
+				// epoch can resolve to the list of another address. Such a list never mentions the requested
+				// address; the first transaction whose accounts are all known decides. (A v0 transaction archived
+				// without metadata does not tell its loaded addresses: it can only confirm, not refute.)
+				if tx, meta, err := parseTransactionAndMetaFromNode(decoded, epoch.GetDataFrameByCid); err == nil {
+					if transactionHasAccount(&tx, meta, pk) {
+						listVerified[epochNum] = true
+					} else if len(tx.Message.AddressTableLookups) == 0 || meta != nil {
+						return nil, gsfa.ErrNotThisAddress
+					}
+				}
 			}
 			return decoded, nil
 		},
